@@ -97,6 +97,7 @@ FS = {
     "owndot.mac": "\t. = 3000\n\tnop\n\t.blkb -1\n",
     "ownnest.mac": "\t.link 3000\n\tnop\n\t.include \"synerr.mac\"\n",
     "synerr.mac": "\tnop\nx =\n",
+    "selfrep.mac": ".repeat sr { .include \"selfrep.mac\" }\nsr = 1\n",
     "long.mac": "".join(f"; line {q}\n" for q in range(1, 40)) + "lx1:: nop\nlk1 == 5\n\tnop\nlz1:: nop\n",
 }
 NEEDS_FS = re.compile(r"include|insert_file", re.I)
@@ -162,6 +163,8 @@ FAULTS = {
     "unencodable-string-with-forward-chunk": ['.asciz "αβγ" <fc{i}> ""', "fc{i}:"],
     "non-ascii-digit": [".word \u0668", ".byte 1\u0663, \u00b2"],
     # diagnostics with two spans in two files, the other span far down in a file longer than the text itself
+    "two-links-one-in-lazy-repeat": ["ls{i}:", ".repeat ln{i} {{ .link 2000 }}", "le{i}:", "ln{i} = 1", ".link le{i} - ls{i} + 1000"],
+    "self-include-in-lazy-repeat": ['.include "selfrep.mac"'],
     "cross-file-duplicate-export": ['.include "long.mac"', "lx1:: nop"],
     "cross-file-duplicate-constant": ["lk1 == 7", '.include "long.mac"'],
     "cross-file-sob-forward": ["sob r0, lz1", '.include "long.mac"'],
@@ -534,6 +537,11 @@ def shape_tags(text, outcome, exc):
         tags.append("outcome:exception:" + (exc or "?").split(":")[0].split(" ")[0])
     else:
         tags.append("outcome:" + outcome)
+    # the shapes of two open findings about late-compiled blocks (KF-late-block-*)
+    if len(re.findall(r"\.link\b", text, re.I)) >= 2 and re.search(r"\.repeat\s+[A-Za-z_$][\w$.]*\s*\{[^}]*\.link\b", text, re.I):
+        tags.append("shape:two-base-directives-one-in-late-compiled-block")
+    if "selfrep.mac" in text:
+        tags.append("shape:self-include-in-late-compiled-block")
     try:
         if cyclic_definition(text):
             tags.append("shape:cyclic-symbol-definition")
